@@ -38,7 +38,9 @@ read-modify-write exception); C09.3 the publication loops range over exactly
 the tuples whose server or expiry changed, however that list is built; C09.4
 reload_server restores a replaced server's recorded placement unless a
 snapshot taken before the removal says it held nothing; C09.5 instances leave
-the cell only through Loader.remove_app.
+the cell only through Loader.remove_app. Fourth round: C09.2 a victim of the
+eviction scan keeps its identity (it may return to the same server and expiry,
+which publishes nothing).
 Does NOT decide equality of the whole stored tree with the whole model over
 histories of ZooKeeper events.
 """
